@@ -56,7 +56,9 @@ const (
 	allocBase = 64 << 20
 	allocSlack = 64 << 10 // measurement noise (runtime bookkeeping) is not a violation
 	allocBig  = 2 << 20 // see gcPolicy
-	allocCap  = 8       // allocation violations per job after which the rest of the job is skipped (each costs ~0.1 s)
+	// calls that allocate more than allocBig are slow here (page faults): after this many of them (quick /
+	// thorough) the rest of the job is skipped and reported through CapHit
+	allocCapQuick, allocCapThorough = 12, 96
 	hangAfter = 30 * time.Second
 )
 
@@ -103,6 +105,7 @@ type target struct {
 	// run executes the decoder; the returned string names the outcome ("ok", "err: ...", or "VIOL ..." for a
 	// partial-effect violation). Panics are caught by the caller.
 	run  func(e *enc, in []byte) string
+	init func() // optional, runs in the child before the first input of a job (outside the allocation measurement)
 	encs []enc
 	fams []*family
 }
@@ -122,6 +125,7 @@ type job struct {
 	Seq    int
 	T, F   string
 	Lo, Hi int
+	Big    int // big allocations already seen in earlier parts of this job
 }
 
 type vmsg struct { // child -> parent
@@ -137,7 +141,8 @@ type rmsg struct {
 	Flaky    []string
 	Groups   map[string]int64 // violation group (class|site) -> number of inputs of this job in it
 	Partial  bool             // the child exits after this line (gcPolicy); the parent resumes the job
-	Stopped  int              // >0: the job was abandoned before this index after allocCap allocation violations
+	Stopped   int // >0: the job was abandoned before this index after allocCap big allocations
+	BigAllocs int // calls of this (part of the) job that allocated more than allocBig
 }
 
 type line struct {
@@ -209,18 +214,22 @@ func altOps(e *enc) []altOp {
 			}
 		}
 	}
-	for _, w := range []int{2, 4, 8} {
+	for wi, w := range []int{2, 4, 8} {
 		all := ^uint64(0) >> (64 - 8*uint(w))
+		kind := [...]string{"set16", "set32", "set64"}[wi]
 		for _, p := range pos {
 			if p+w > L {
 				continue
 			}
 			cur := beGet(e.B[p : p+w])
-			seen := map[uint64]bool{cur: true}
-			for _, v := range []uint64{0, 1, (cur - 1) & all, (cur + 1) & all, all} {
-				if !seen[v] {
-					seen[v] = true
-					ops = append(ops, altOp{fmt.Sprintf("set%d", 8*w), p, v})
+			vals := [5]uint64{0, 1, (cur - 1) & all, (cur + 1) & all, all}
+			for i, v := range vals {
+				dup := v == cur
+				for _, u := range vals[:i] {
+					dup = dup || u == v
+				}
+				if !dup {
+					ops = append(ops, altOp{kind, p, v})
 				}
 			}
 		}
@@ -342,10 +351,25 @@ func childMain() {
 	}
 	if gcOff = os.Getenv("C16_GCOFF") != ""; gcOff {
 		debug.SetGCPercent(-1)
+	} else {
+		// a child with collector must not attempt huge allocations at all (zeroing): cap its address space a little
+		// above what it uses now, so that they fail fast ("out of memory") and the parent retries the input in a
+		// C16_GCOFF child, where they are cheap
+		var vsz uint64
+		if bs, err := os.ReadFile("/proc/self/statm"); err == nil {
+			fmt.Sscan(string(bs), &vsz)
+		}
+		if lim := vsz*uint64(os.Getpagesize()) + 768<<20; vsz > 0 {
+			syscall.Setrlimit(syscall.RLIMIT_AS, &syscall.Rlimit{Cur: lim, Max: lim})
+		}
 	}
 	loadPrep(os.Getenv("C16_DIR"))
 	buildTargets(os.Getenv("C16_TIER") == "thorough")
 	cell := mapCell(os.Getenv("C16_CELL"))
+	allocCap := allocCapQuick
+	if os.Getenv("C16_TIER") == "thorough" {
+		allocCap = allocCapThorough
+	}
 	out := bufio.NewWriter(os.Stdout)
 	emit := func(l line) {
 		bs, _ := json.Marshal(l)
@@ -376,7 +400,6 @@ func childMain() {
 				emit(line{V: &v})
 			}
 		}
-		nAllocViol := 0
 		norm := map[string]string{}
 		hexOf := func(in []byte) string { return trunc(hex.EncodeToString(in), 8192) }
 		one := func(i int, measure bool) (alloc uint64) {
@@ -415,18 +438,23 @@ func childMain() {
 			}
 			if measure && alloc > allocBase+64*uint64(len(in))+allocSlack {
 				r.Outcomes["alloc>budget"]++
-				nAllocViol++
 				send(vmsg{Class: "alloc", At: "-", Desc: inputDesc(in, desc), Hex: hexOf(in), I: i,
 					Detail: fmt.Sprintf("one call allocated %d bytes (TotalAlloc delta) for an input of %d bytes; budget 64 MiB + 64*len", alloc, len(in))})
 			}
 			if measure {
+				if alloc > allocBig {
+					r.BigAllocs++
+				}
 				gcPolicy(alloc, func() { r.Partial = true; emit(line{R: r}) })
 			}
 			return alloc
 		}
 		atomic.StoreUint64(&cell[0], uint64(j.Seq))
+		if f.t.init != nil {
+			f.t.init()
+		}
 		for i := j.Lo; i < j.Hi; i += f.batch {
-			if nAllocViol >= allocCap {
+			if j.Big+r.BigAllocs >= allocCap {
 				r.Stopped = i
 				break
 			}
@@ -552,6 +580,9 @@ type event struct {
 // runJob sends j to the worker's child and consumes its output. It returns the result, or the event that
 // killed the child.
 func (w *worker) runJob(j job, onV func(vmsg)) (*rmsg, *event) {
+	if w.cmd != nil && w.gcOff != w.dirty {
+		w.stop()
+	}
 	if w.cmd == nil {
 		w.start()
 	}
@@ -679,8 +710,14 @@ func confirm(w *worker, t, f string, idx int) string {
 // execJob runs one job to completion on w, resuming after crashes / allocation exits / hangs.
 func execJob(w *worker, j job) {
 	f := findFam(j.T, j.F)
-	events := 0
+	events, retried, big := 0, -1, 0
 	lo := j.Lo
+	t0 := time.Now()
+	defer func() {
+		aggMu.Lock()
+		jobTime[j.T+" "+j.F] += time.Since(t0).Seconds()
+		aggMu.Unlock()
+	}()
 	defer func() { // a child without collector serves one job only
 		if w.gcOff = false; w.dirty {
 			w.stop()
@@ -688,8 +725,14 @@ func execJob(w *worker, j job) {
 	}()
 	for lo < j.Hi {
 		jj := j
-		jj.Lo = lo
+		jj.Lo, jj.Big = lo, big
+		aggMu.Lock()
+		if flagged[j.T] != "" {
+			w.gcOff = true // this target is known to allocate hugely
+		}
+		aggMu.Unlock()
 		r, ev := w.runJob(jj, addViolation)
+		wasDirty := w.dirty
 		if r != nil {
 			aggMu.Lock()
 			if outcomes[j.T] == nil {
@@ -716,8 +759,9 @@ func execJob(w *worker, j job) {
 				}
 				aggMu.Unlock()
 			}
-			if r.Stopped > 0 {
-				c.CapHit(fmt.Sprintf("%s %s: %d allocation violations in inputs [%d,%d), inputs [%d,%d) of this job skipped", j.T, j.F, allocCap, j.Lo, r.Stopped, r.Stopped, j.Hi))
+			if big += r.BigAllocs; r.Stopped > 0 {
+				c.CapHit(fmt.Sprintf("%s %s: %d calls allocating more than 2 MiB in inputs [%d,%d), inputs [%d,%d) of this job skipped", j.T, j.F, big, j.Lo, r.Stopped, r.Stopped, j.Hi))
+				return
 			}
 		}
 		if ev == nil {
@@ -732,6 +776,12 @@ func execJob(w *worker, j job) {
 			aggMu.Lock()
 			evalsBy[j.T] += int64(ev.idx - lo + 1)
 			aggMu.Unlock()
+		}
+		if ev.kind == "crash" && !wasDirty && strings.Contains(ev.text, "out of memory") && retried != ev.idx {
+			retried = ev.idx // the address space cap of a child with collector: repeat this input without collector
+			w.gcOff = true
+			lo = ev.idx
+			continue
 		}
 		lo = ev.idx + 1
 		if ev.kind == "exit5" { // child replaced itself (gcPolicy)
@@ -842,6 +892,18 @@ func runPhase(jobs []job) {
 }
 
 var jobsDone int64
+var jobTime = map[string]float64{}
+
+func printSlowest() {
+	var ks []string
+	for k := range jobTime {
+		ks = append(ks, k)
+	}
+	sort.Slice(ks, func(a, b int) bool { return jobTime[ks[a]] > jobTime[ks[b]] })
+	for _, k := range ks[:min(12, len(ks))] {
+		fmt.Fprintf(os.Stderr, "  slow: %6.1fs %s\n", jobTime[k], k)
+	}
+}
 
 func main() {
 	if os.Getenv("C16_CHILD") != "" {
@@ -850,6 +912,15 @@ func main() {
 	}
 	if d := os.Getenv("C16_PREPONLY"); d != "" { // debugging aid: build the encodings, then feed jobs to a child by hand
 		prepare(d, false)
+		loadPrep(d)
+		buildTargets(false)
+		for _, t := range targets {
+			n := 0
+			for _, f := range t.fams {
+				n += f.n
+			}
+			fmt.Printf("%-45s encodings=%-3d families=%-4d inputs=%d\n", t.name, len(t.encs), len(t.fams), n)
+		}
 		return
 	}
 	c = lib.New("C16", "exploration", 100*time.Second, 25*time.Minute)
@@ -929,6 +1000,9 @@ func main() {
 		c.Set("phases_completed", phase+1)
 	}
 	close(stopWD)
+	if os.Getenv("C16_TIMING") != "" {
+		printSlowest()
+	}
 	report()
 	exit("every input of every family (raw byte strings up to the per-target length, every alteration operator at every eligible position of "+
 		"every valid encoding, every SQL token sequence up to the tier's length) executed against the real decoder in a child process; "+
